@@ -177,6 +177,23 @@ class _Expand(ast.NodeTransformer):
     def visit_Lambda(self, node):
         return node
 
+    def visit_Attribute(self, node):
+        self.generic_visit(node)
+        v = node.value
+        # the first element whose attribute A equals X has A == X: next(e for e in S if e.A == X).A is X
+        if isinstance(v, ast.Call) and isinstance(v.func, ast.Name) and v.func.id == "next" and len(v.args) == 1 and not v.keywords \
+                and isinstance(v.args[0], ast.GeneratorExp) and len(v.args[0].generators) == 1:
+            g = v.args[0].generators[0]
+            if isinstance(g.target, ast.Name) and isinstance(v.args[0].elt, ast.Name) and v.args[0].elt.id == g.target.id \
+                    and len(g.ifs) == 1 and isinstance(g.ifs[0], ast.Compare) and len(g.ifs[0].ops) == 1 \
+                    and isinstance(g.ifs[0].ops[0], ast.Eq):
+                l, r = g.ifs[0].left, g.ifs[0].comparators[0]
+                for a_, b_ in ((l, r), (r, l)):
+                    if isinstance(a_, ast.Attribute) and a_.attr == node.attr and isinstance(a_.value, ast.Name) \
+                            and a_.value.id == g.target.id and not any(isinstance(x, ast.Name) and x.id == g.target.id for x in ast.walk(b_)):
+                        return b_
+        return node
+
     def visit_Call(self, node):
         self.generic_visit(node)
         f = node.func
